@@ -167,6 +167,11 @@ type DeleteObjectOptions struct {
 	// The special value "*" matches any existing object (i.e. HTTP If-Match: *),
 	// returning ErrPreconditionFailed only when the object does not exist.
 	IfMatchETag *string
+	// IfMatchLastModifiedTime, when non-nil, requires the stored object's
+	// Last-Modified to equal this value before deleting; otherwise
+	// ErrPreconditionFailed is returned. Together with IfMatchETag it tells a
+	// re-upload of identical content apart from the object that was looked at.
+	IfMatchLastModifiedTime *time.Time
 }
 
 type DeleteObjectResult struct {
@@ -628,6 +633,10 @@ type TransitionObjectStorageClassOptions struct {
 	// IfMatchETag, when non-nil, requires the selected object's ETag to equal
 	// this value; otherwise ErrPreconditionFailed is returned.
 	IfMatchETag *string
+	// IfMatchLastModifiedTime, when non-nil, requires the selected object's
+	// Last-Modified to equal this value; otherwise ErrPreconditionFailed is
+	// returned.
+	IfMatchLastModifiedTime *time.Time
 	// VersionID selects an explicit object version. When nil, the current
 	// version at key is selected.
 	VersionID *string
